@@ -334,7 +334,7 @@ def run(chk):
     cases = []
     for fam in fams:
         n = fam[4]
-        for d in range(1, n + 1):
+        for d in range(0, n + 1):  # 0: nothing to rotate, the identity
             cases.append((fam, "rotate", d))
         for d in range(n):
             for t in (2, 3, 8) if quick else (2, 3, 4, 8, 16):
